@@ -903,6 +903,12 @@ class TunnelCommunity(Community):
         circuit_id = payload.circuit_id
 
         if self.request_cache.has(CreateRequestCache, payload.identifier):
+            pending = cast("CreateRequestCache", self.request_cache.get(CreateRequestCache, payload.identifier))
+            if circuit_id != pending.to_circuit_id:
+                # The identifier is a 16-bit number: whoever hits it must also name the circuit we asked to create.
+                self.logger.warning("Created names circuit %d, we are waiting for circuit %d", circuit_id,
+                                    pending.to_circuit_id)
+                return
             request = self.request_cache.pop(CreateRequestCache, payload.identifier)
 
             self.logger.info("Got CREATED message forward as EXTENDED to origin.")
